@@ -24,7 +24,7 @@ BOUNDS = {"quick": {"bus": "<= 2 subscribers x <= 3 publications x 3 topics (all
                     "estimator": "<= 3 callbacks, any imu/mag pattern, arbitrary times in [0, 100], with and without init",
                     "logger": "run of 0.05 s, initial period 0.02 s, <= 1 driver action (publish a / publish b / set period in "
                               "[0.01, 0.04]) after an arbitrary gap in [0, 0.03]"},
-          "thorough": {"bus": "<= 3 subscribers x <= 4 publications", "estimator": "as quick", "logger": "+ two successive period changes at arbitrary instants (gaps in [0, 0.03], periods in [0.01, 0.04])"}}
+          "thorough": {"bus": "<= 3 subscribers x <= 4 publications", "estimator": "as quick", "logger": "as quick"}}
 EXPLANATION = ("bounded, path-exhaustive symbolic execution of the real bus and estimator-node code; each claim is a "
                "postcondition over symbolic inputs; reachability twins guard against vacuity")
 
@@ -113,7 +113,7 @@ def replay_call(call_src):
 def jobs(tier, seed):
     fns = list(FUNCS)
     if tier == "thorough":
-        fns += ["bus_delivery_big", "logger_two_period_changes"]  # estimator (<= 4 callbacks) and logger (<= 2 actions) were not confirmed within 3000 s: not claimed
+        fns += ["bus_delivery_big"]  # logger_two_period_changes was confirmed stand-alone (7 min) but not inside the tier (3000 s cap, twice); estimator (<= 4 callbacks) and logger (<= 2 actions) were not confirmed within 3000 s: not claimed
     return [(f"C20:{fn}", job, (fn, tier, seed)) for fn in fns]
 
 
